@@ -112,6 +112,24 @@ def check(ctx: Ctx, ev: Evidence) -> list[Finding]:
         if not ok:
             out.append(Finding("C08-R1", f"source handler | segment request validation | no comparison of {' and '.join(sorted(nd))}",
                                f"a NAK segment request is served without comparing {' and '.join(sorted(nd))}: data outside the sent range can be re-sent", loc(hr, hr.node)))
+    # ---- R3 (syntax-tree part): nothing reachable from the NAK entry mutates an object of the per-transaction parameter block
+    # in place (running digests, accumulators, lists): what a retransmission feeds into such an object changes the EOF or the
+    # continuation although no field is re-assigned
+    from ..astq import MUTATING_METHODS, expand_local_aliases
+    n_mut = 0
+    for q in sorted(reach):
+        fi = prog.functions.get(q)
+        if fi is None or fi.cls != SRC:
+            continue
+        for n in ast.walk(expand_local_aliases(fi.node)):
+            if isinstance(n, ast.Call) and isinstance(n.func, ast.Attribute) and n.func.attr in MUTATING_METHODS | {"update"}:
+                recv = ast.unparse(n.func.value)
+                if recv.startswith("self._params."):
+                    n_mut += 1
+                    ev.inst("C08-R3", f"{fi.name}: `{norm(n)[:70]}` mutates per-transaction state on a path shared with retransmission", "violation", loc(fi, n))
+                    out.append(Finding("C08-R3", f"source handler | in-place mutation of per-transaction state reachable from NAK servicing | {recv}.{n.func.attr}",
+                                       f"`{norm(n)[:90]}` in {fi.name} is reachable from the NAK servicing entry: a retransmission feeds the same object as the original transmission (the EOF derived from it changes)", loc(fi, n)))
+    ev.inst("C08-R3", f"functions reachable from the NAK entry: {len(reach)}; in-place mutations of parameter-block objects among them: {n_mut}", "ok" if n_mut == 0 else "violation")
     # ---- R2 idiom
     # anchor by content: functions reachable from the NAK entry that loop and take the segment request as parameter
     loopers = []
